@@ -452,7 +452,7 @@ def run_chunk(job):
                     {"prop": prop, "sub": sub, "index": i, "run_id": run_id, "clause": v["clause"], "message": v["message"], "key": v["key"],
                      "cfg": cfg, "wl": wl, "bgzf": bgzf, "decisions": r.decisions}
                 )
-        if len(d["samples"]) < 1 and j == 0 and chunk % 50 == 0:
+        if len(d["samples"]) < 1 and chunk % 25 == 0 and nontrivial(r) and r.steps >= 30:
             d["samples"].append(sample_of(run_id, wl, cfg, r))
     d["abs_states"] = [shash(*t) for t in abs_s]
     d["abs_trans"] = [shash(*(a + b)) for a, b in abs_t]
